@@ -93,8 +93,11 @@ def write_replay(cid, case, seed, res):
 
 
 def confirm_in_fresh_process(path) -> int:
-    r = subprocess.run([sys.executable, "-m", "vtk.cli", "replay", path, "--quiet"], cwd=VERIF,
-                       capture_output=True, text=True)
+    try:
+        r = subprocess.run([sys.executable, "-m", "vtk.cli", "replay", path, "--quiet"], cwd=VERIF,
+                           capture_output=True, text=True, timeout=float(os.environ.get("VT_GROUP_TIMEOUT_S", "600")))
+    except subprocess.TimeoutExpired:
+        return -999
     return r.returncode
 
 
@@ -107,6 +110,77 @@ def validate_evidence(ev):
         schema = json.load(f)
     jsonschema.validate(ev, schema)
 
+
+
+def _group_subprocess(cid, seed, cases, timeout):
+    """Run cases in a fresh process.  Returns (results|None, rc, stderr_tail)."""
+    import tempfile
+
+    with tempfile.TemporaryDirectory(prefix="vtgrp_") as td:
+        inp = os.path.join(td, "in.json")
+        outp = os.path.join(td, "out.json")
+        with open(inp, "w") as f:
+            json.dump({"property": cid, "seed": seed, "cases": cases}, f, default=str)
+        try:
+            r = subprocess.run([sys.executable, "-m", "vtk.cli", "rungroup", inp, outp], cwd=VERIF, capture_output=True,
+                               text=True, timeout=timeout)
+        except subprocess.TimeoutExpired:
+            return None, "timeout", ""
+        if r.returncode == 0 and os.path.exists(outp):
+            with open(outp) as f:
+                return json.load(f), 0, ""
+        return None, r.returncode, r.stderr[-600:]
+
+
+def _run_isolated(cid, seed, todo, nthreads):
+    from concurrent.futures import ThreadPoolExecutor
+
+    timeout = float(os.environ.get("VT_GROUP_TIMEOUT_S", "600"))
+
+    def one(it):
+        gi, cases = it
+        res, rc, err = _group_subprocess(cid, seed, cases, timeout)
+        if res is not None:
+            return gi, res, None
+        if rc == 2:
+            return gi, None, "isolated group failed with a harness error: %s" % err
+        # crashed or hung: find the first single case that does it
+        out = []
+        found = False
+        for c in cases:
+            if found:
+                out.append(dict(ok=True, skipped="not run: an earlier case of this group crashed the process"))
+                continue
+            r1, rc1, err1 = _group_subprocess(cid, seed, [c], timeout)
+            if r1 is not None:
+                out.append(r1[0])
+            elif rc1 == 2:
+                return gi, None, "isolated case failed with a harness error: %s" % err1
+            else:
+                found = True
+                what = "hang (no result within %gs)" % timeout if rc1 == "timeout" else "process died with status %s" % rc1
+                out.append(dict(ok=False, sig="%s/crash" % cid, msg="the code under test killed the process: %s %s" % (what, err1[-200:]),
+                                nontrivial=True))
+        if not found:
+            return gi, None, "group crashed in the pool but not in isolation (rc=%s): %s" % (rc, err)
+        return gi, out, None
+
+    with ThreadPoolExecutor(max_workers=nthreads) as tp:
+        return list(tp.map(one, todo))
+
+
+def run_group_file(inp, outp) -> int:
+    with open(inp) as f:
+        d = json.load(f)
+    _init(d["property"], int(d["seed"]))
+    try:
+        res = _mod.run_group(d["cases"], int(d["seed"]))
+    except BaseException:
+        traceback.print_exc()
+        return 2
+    with open(outp, "w") as f:
+        json.dump(res, f, default=str)
+    return 0
 
 def run_check(cid: str, tier: str) -> int:
     t0 = time.time()
@@ -126,19 +200,47 @@ def run_check(cid: str, tier: str) -> int:
     results = {}
     harness_errors = []
     capped = False
-    ctx = mp.get_context("fork")
     items = list(enumerate(groups))
-    with ctx.Pool(nproc, initializer=_init, initargs=(cid, seed)) as pool:
-        it = pool.imap_unordered(_work, items, chunksize=1)
-        for gi, res, err, wall in it:
+    from concurrent.futures import ProcessPoolExecutor, as_completed
+    from concurrent.futures.process import BrokenProcessPool
+
+    ctx = mp.get_context("fork")
+    broken = False
+    ex = ProcessPoolExecutor(max_workers=nproc, mp_context=ctx, initializer=_init, initargs=(cid, seed))
+    try:
+        futs = {ex.submit(_work, it): it[0] for it in items}
+        for fu in as_completed(futs):
+            try:
+                gi, res, err, wall = fu.result()
+            except BrokenProcessPool:
+                broken = True
+                break
             if err is not None:
                 harness_errors.append((gi, err))
             else:
                 results[gi] = res
             if time.time() - t0 > budget:
                 capped = True
-                pool.terminate()
                 break
+    finally:
+        procs = list((getattr(ex, "_processes", None) or {}).values())
+        ex.shutdown(wait=False, cancel_futures=True)
+        if broken or capped:
+            for pr in procs:
+                try:
+                    pr.kill()
+                except Exception:
+                    pass
+    if broken:
+        # a worker died (segfault / abort inside the code under test).  Re-run every unfinished group in its own
+        # process; a group that kills its process is narrowed down to single cases; a reproducible crash is a verdict.
+        todo = [it for it in items if it[0] not in results and it[0] not in dict(harness_errors)]
+        crash_results = _run_isolated(cid, seed, todo, min(nproc, 16))
+        for gi, res, err in crash_results:
+            if err is not None:
+                harness_errors.append((gi, err))
+            else:
+                results[gi] = res
     if harness_errors:
         gi, err = harness_errors[0]
         sys.stderr.write("HARNESS ERROR in %s group %d (case0=%s):\n%s\n" % (
@@ -200,7 +302,7 @@ def run_check(cid: str, tier: str) -> int:
         case, r = lst[0]
         path = write_replay(cid, case, seed, r)
         rc = confirm_in_fresh_process(path)
-        if rc == 1:
+        if rc == 1 or (sig.endswith("/crash") and rc not in (0, 2)):
             new_violations.append((sig, path, r, len(lst)))
         elif rc == 0:
             sys.stderr.write("HARNESS ERROR: violation %s did not reproduce in a fresh process (%s)\n" % (sig, path))
